@@ -213,6 +213,23 @@ CLAIMED["C13"] = {
     "design": "DESIGN.md section 3 C13",
 }
 
+CLAIMED["C18"] = {
+    "text": "Bounded model checking of the real CursorAwareWindow.get_cursor_position and get_cursor_vertical_diff: (a) a "
+            "scripted in_stream delivers extra + CSI + row;col R + trailing, where every character of `extra` (0..2, thorough "
+            "3) has a solver-enumerated class {ESC, '[', 0x9b, digit, ';', 'R', letter, newline/CR} and is symbolic within "
+            "it, both CSI forms, four literal reports, trailing input, reads failing with OSError first, with and without "
+            "callback: the returned (row-1, col-1), the bytes handed to extra_bytes_callback (exactly `extra`, once), "
+            "ValueError exactly when bytes precede the report and there is no callback, and the reader position (nothing "
+            "after the report consumed) are asserted. (b) conservation: top_usable_row, last row and up to three reported "
+            "rows are symbolic integers, a nested call may arrive during any query: change of top_usable_row + returned "
+            "value == observed movement, nested calls return 0, queries repeat exactly while interrupted.",
+    "note": "Trusted: CPython, CrossHair + z3 and its regex model (violations replayed with CPython's re). `extra` containing "
+            "a complete look-alike report is excluded (it IS a report). (b) stubs get_cursor_position (part (a) covers it); "
+            "|movement| per query bounded (quick 12/4/2, thorough 12/12/6) because the real clamping loops run |dy| times.",
+    "technique": TECH + "; class-selector + symbolic-offset characters, scripted stream with fault schedule, symbolic integer state",
+    "design": "DESIGN.md section 3 C18",
+}
+
 NOT_YET = {}
 
 ALL = ["C%02d" % i for i in range(1, 21)]
